@@ -21,8 +21,8 @@ static void set_src(const Args &a) {
     tape_set_src(e);
 }
 // scripted storage
-static bytes_t g_store; static int g_rres = 32, g_wres = 32; static long g_reads = 0, g_writes = 0;
-static bytes_t g_written; static int g_last_erase = -1; static size_t g_last_off = 99;
+static thread_local bytes_t g_store; static thread_local int g_rres = 32, g_wres = 32; static thread_local long g_reads = 0, g_writes = 0;
+static thread_local bytes_t g_written; static thread_local int g_last_erase = -1; static thread_local size_t g_last_off = 99;
 static int st_read(const ascon_storage_t *, size_t off, unsigned char *data, size_t size) {
     ++g_reads;
     if (g_rres < 0) return -1;
